@@ -19,6 +19,7 @@ var c06Cfg = mkSpace("config", []fieldDim{
 	{"IssuerCfg", []string{"", "static-path", "host", "host-path"}},
 	{"SSOEp", []string{"", "custom", "custom-noslash", "external"}},
 	{"Transport", []string{"", "post"}},
+	{"StoreLookup", []string{"", "case-insensitive", "trailing-slash"}},
 })
 
 var c06Msg = mkSpace("message", []fieldDim{
@@ -29,8 +30,8 @@ var c06Msg = mkSpace("message", []fieldDim{
 	{"ID", []string{"", "absent", "empty"}},
 	{"Version", []string{"", "absent", "empty"}},
 	{"Dest", []string{"", "absent", "scheme", "host", "port", "path", "case", "slash", "slo-endpoint"}},
-	{"NB", []string{"", "-1y", "-1s", "now", "+1us", "+1s", "+1y", "junk", "date", "tz", "tz+", "lowz", "nofrac-", "nofrac+", "9dig-", "9dig+"}},
-	{"NOOA", []string{"", "-1y", "-1us", "now", "+1us", "+1y", "junk", "date", "tz", "tz+", "lowz", "nofrac-", "nofrac+", "9dig-", "9dig+"}},
+	{"NB", []string{"", "-1y", "-1s", "now", "+1us", "+1s", "+1y", "junk", "date", "tz", "tz+", "lowz", "nofrac-", "nofrac+", "9dig-", "9dig+", "zero", "epoch", "max"}},
+	{"NOOA", []string{"", "-1y", "-1us", "now", "+1us", "+1y", "junk", "date", "tz", "tz+", "lowz", "nofrac-", "nofrac+", "9dig-", "9dig+", "zero", "epoch", "max"}},
 	{"Encoding", []string{"", "deflate", "unknown", "case"}},
 	{"Special", []string{"", "sigalg-without-signature", "empty-samlrequest", "no-samlrequest"}},
 	{"Host", []string{"", "other.example:8443"}},
@@ -174,7 +175,7 @@ func init() { Registry["C06"] = runC06 }
 func runC06(ctx Ctx) int {
 	world.PinClock()
 	run := ev.NewRun("C06")
-	run.Rule = "full product of 32 IdP configurations (issuer x SSO endpoint x transport) x every assignment of 13 message-validity dimensions with at most k deviations from the conformant default (k<=2 quick, k<=3 thorough); plus event histories on one provider for every k<=1 shape x config: (valid request accepted) ; p and (valid request accepted) ; SP unregistered ; p; one execution = fresh provider + one real SSO request, clock pinned; oracle = necessary conditions of acceptance evaluated on generator ground truth"
+	run.Rule = "full product of 96 IdP configurations (issuer x SSO endpoint x transport x storage lookup mode exact / case-insensitive / trailing-slash-tolerant) x every assignment of 13 message-validity dimensions with at most k deviations from the conformant default (k<=2 quick, k<=3 thorough); plus event histories on one provider for every k<=1 shape x config: (valid request accepted) ; p and (valid request accepted) ; SP unregistered ; p; one execution = fresh provider + one real SSO request, clock pinned; oracle = necessary conditions of acceptance evaluated on generator ground truth"
 	run.Assume = []string{"ambiguous inputs (trailing bytes after a DEFLATE stream, raw XML on the Redirect binding, base64 with embedded newlines) are not in the alphabet: the statement does not say which way they must go"}
 	if ctx.Replay != "" {
 		var rp c06Replay
@@ -207,7 +208,7 @@ func runC06(ctx Ctx) int {
 		cp := ssoFromVec(c06Cfg, cv)
 		c06Msg.EnumK(k, func(mv []int) bool {
 			p := ssoFromVec(c06Msg, mv)
-			p.IssuerCfg, p.SSOEp, p.Transport = cp.IssuerCfg, cp.SSOEp, cp.Transport
+			p.IssuerCfg, p.SSOEp, p.Transport, p.StoreLookup = cp.IssuerCfg, cp.SSOEp, cp.Transport, cp.StoreLookup
 			if c06Valid(p) {
 				items = append(items, item{p, c06Labels(c06Cfg, c06Msg, cv, mv)})
 			}
@@ -232,7 +233,7 @@ func runC06(ctx Ctx) int {
 		cp := ssoFromVec(c06Cfg, cv)
 		c06Msg.EnumK(1, func(mv []int) bool {
 			p := ssoFromVec(c06Msg, mv)
-			p.IssuerCfg, p.SSOEp, p.Transport = cp.IssuerCfg, cp.SSOEp, cp.Transport
+			p.IssuerCfg, p.SSOEp, p.Transport, p.StoreLookup = cp.IssuerCfg, cp.SSOEp, cp.Transport, cp.StoreLookup
 			if c06Valid(p) {
 				hist = append(hist, item{p, c06Labels(c06Cfg, c06Msg, cv, mv)})
 			}
@@ -256,6 +257,6 @@ func runC06(ctx Ctx) int {
 	run.Sample(items[0].p)
 	run.Sample(items[len(items)/2].p)
 	run.Sample(items[len(items)-1].p)
-	finishCapped(run, complete, fmt.Sprintf("%d executions: 32 configs x k<=%d over %d message dims (%d single alternatives)", len(items), k, len(c06Msg.Dims), c06Msg.CountK(1)-1))
+	finishCapped(run, complete, fmt.Sprintf("%d executions: 96 configs x k<=%d over %d message dims (%d single alternatives)", len(items), k, len(c06Msg.Dims), c06Msg.CountK(1)-1))
 	return run.Finish()
 }
